@@ -16,7 +16,7 @@ from __future__ import annotations
 
 from harness.core import Atom
 
-EXPR_NEUTRAL = ("lit", "var", "cat", "blk")
+EXPR_NEUTRAL = ("lit", "var", "cat", "blk", "join")
 EXPR_OPS = ("esc", "force", "add", "mod", "join", "replace", "indent", "truncate")
 
 
@@ -62,7 +62,11 @@ class TermGen:
             return self.op(depth, scope_len)
         if r < (0.62 if self.ops else 0.3):
             return leaf()
-        if r < (0.8 if self.ops else 0.65):
+        if not self.ops and r < 0.5:
+            # join is escaping-neutral; delimiter and items are arbitrary expressions: data, literals, and rendered fragments
+            # (set-block variables, macro / imported macro results, caller()) which are Markup under autoescape
+            return ("join", self.expr(depth - 1, scope_len), self.expr(depth - 1, scope_len), self.expr(depth - 1, scope_len))
+        if r < (0.8 if self.ops else 0.7):
             return ("cat", self.expr(depth - 1, scope_len), self.expr(depth - 1, scope_len))
         return ("blk", self.node(depth - 1, scope_len))
 
@@ -268,6 +272,12 @@ class Realiser:
             elif r < 0.2:
                 self.use("emit:cond")
                 c = f"({c} if true else 'no')"
+            elif r < 0.27:
+                self.use("emit:default-arg")          # the value reaches the output as an ARGUMENT of a filter
+                c = f"(none|default({c}, true))"
+            elif r < 0.32:
+                self.use("emit:default-recv")
+                c = f"({c}|default('zz'))"
             return pre + "{{ " + c + " }}"
         if k == "seq":
             a = self.node(t[1], scope)
